@@ -348,6 +348,18 @@ CHECKS += [
          technique="lifted execution of the Pauli arithmetic on z3 complex-polynomial coefficients; z3 QF_NRA equality proofs against Kronecker-product matrices"),
 ]
 
+CHECKS += [
+    dict(property_id="C41", category="other", engine="E5 symbit + z3",
+         text="Every program of 3 (thorough 4) steps over 16 step kinds - plain operator, adjoint / ctrl / pow / s_prod / prod / @ / sum wrappers of freshly created operands, "
+              "measurements, creation under stop_recording, nested recording contexts (also with an inner stop_recording and with an exception raised inside), qp.apply of an "
+              "operator created while not recording - is run on the REAL AnnotatedQueue / QueuingManager; the step kinds are solver variables and every sequence is a "
+              "solver-decided path. Compared with a list model of the program: outer queue = top-level objects in program order (operands only through their wrapper), inner "
+              "queues = their own objects, nothing from stop_recording, context stack restored after every step and after exceptions, QuantumScript.from_queue splits alike.",
+         note="Category 'other': bounded exhaustive exploration through solver-decided forks; the compared data are object identities (no symbolic values). Trusted base: z3, vf.symbit. "
+              "Outside: qfunc transforms, templates queuing in compute_decomposition, program capture, threads.",
+         technique="lifted execution with solver-chosen step kinds (z3-decided forks) against a list model of the program"),
+]
+
 _NOT_BUILT = "claimed in DESIGN.md §4 but its solver-based check is not built yet in this tree"
 NOT_APPLICABLE_REASONS = {
     "C04": "equality/hash: Python hash() of concrete payloads and tolerance-based allclose relations; no exact relation a solver can decide",
